@@ -33,7 +33,13 @@ _marker = [0]
 
 def marker(rng):
     _marker[0] += 1
-    return "SEC%dx%06x" % (_marker[0], rng.getrandbits(24))
+    m = "SEC%dx%06x" % (_marker[0], rng.getrandbits(24))
+    r = rng.random()
+    if r < 0.25:                      # longer than one 32-byte key / two cipher blocks
+        m += "-" + "".join(rng.choice("abcdefghjkmnpqrstuvwxyz23456789") for _ in range(rng.choice([19, 20, 21, 35, 52, 70])))
+    elif r < 0.3:
+        m += "-ünï©ødé-𝄞"
+    return m
 
 
 def secure_leaf(rng):
